@@ -41,6 +41,9 @@ def cases(tier, seed):
     for sc, c in common.add_algs(common.batch_seq_scope(lvl),
                                  common.batch_seq_algs):
         out.append((sc, c))
+    for sc, c in common.add_algs(common.zero_comp_scope(lvl),
+                                 lambda c: common.shipped(c, lvl, "diag")):
+        out.append((sc, c))
     for sc, c in common.add_algs(common.wide_scope(lvl),
                                  lambda c: common.wide_algs(c, lvl)):
         out.append((sc, dict(c, delay={"mode": "choice", "arity": 3})))
@@ -72,6 +75,17 @@ def cases(tier, seed):
             cd["budget_override"] = {"adv": 0, "api": 1, "tie": 0}
             if world.feasible(cd):
                 out.append((sc + "/elastic-no-self-release", cd))
+    # a run after ANOTHER simulation of the same process (same plan one step
+    # later: other hand-over clocks, hence other task ids; complete, or
+    # abandoned at k): nothing of the earlier one may show up in this one
+    for sc, c in common.thin(
+            common.add_algs(common.thin(base, 6), lambda c: [
+                {"kind": "queue"}, {"kind": "batch", "p": 1, "min": 1}]), 1):
+        later = dict(c, cfg=dict(c["cfg"], obs=[
+            dict(o, start=o["start"] + 1) for o in c["cfg"]["obs"]]))
+        out.append((sc + "/after-another-run", dict(c, before=[later])))
+        out.append((sc + "/after-an-abandoned-run",
+                    dict(c, before=[dict(later, runtime=4)])))
     if tier == "thorough":
         out = [(sc, dict(c, budget_override=dict(
             common.thorough_override(c, i), **c.get("budget_override", {}))))
